@@ -146,6 +146,42 @@ def run(chk):
            "compile_query does not project the select list in the order of query.select")  # fmt: skip
     pol = repo.mod("backend.polars")
     pexp = pol.func("PolarsImpl.export")
-    chk.ob("R5", pol, pexp, "PolarsImpl.export selects name_in_df[uid] for uid in select", "lf.select(*(name_in_df[uid] for uid in select))" in norm(pexp),
-           "PolarsImpl.export does not project the frame by the select list in order")  # fmt: skip
+    # decided by interpretation: export() is run over terms with a stub compile_ast (two columns, the first one stored under a
+    # hash-suffixed frame name, selected in reverse order)
+    from ..interp import Native, PyRaise, SymbolicBranch, Term, Var
+    from ..program import Program
+
+    pexp_decided = False
+    try:
+        prog = Program(repo, primary="backend.polars")
+        penv = prog.env_of(pol)
+        scen = [
+            ("hidden column, reversed selection", {"U1": "a:3f2", "U2": "b", "UH": "h"}, ["U2", "U1"], ["b", "a:3f2"]),
+            # the frame can hold helper columns that are in neither map (join fix-ups): the projection is never optional
+            ("nothing hidden, selection in frame order", {"U1": "a", "U2": "b"}, ["U1", "U2"], ["a", "b"]),
+        ]
+        nd_stub = prog.new("tree.verbs", "Ungroup", child=None, name="tbl")
+        outs = []
+        for label, nmap, sel_, want in scen:
+            penv["compile_ast"] = Native(lambda nd, _m=nmap, _s=sel_: (Var("lf"), dict(_m), list(_s), None), "compile_ast")
+            for lazy in (True, False):
+                tgt = prog.new("backend.targets", "Polars", lazy=lazy)
+                f_ = prog.env_of(pol)["PolarsImpl"].methods["export"]
+                outs.append((label, lazy, want, prog.call(f_, [nd_stub, tgt], {"schema_overrides": {}})))
+        pexp_decided = True
+        for label, lazy, want, t in outs:
+            sels = [x for x in (t.walk() if isinstance(t, Term) else []) if x.fn == "select"]
+            flat_args = [a for x in sels[:1] for a0 in x.args for a in (a0 if isinstance(a0, (list, tuple)) else [a0])]
+            ok_ = len(sels) == 1 and flat_args == want and not [x for x in t.walk() if x.fn in ("rename", "drop", "with_columns", "sort")]
+            chk.ob("R5", pol, pexp, f"PolarsImpl.export(lazy={lazy}) interpreted, {label}: frame projected to {flat_args}", ok_,
+                   f"PolarsImpl.export ({label}) builds {t!r}: the exported frame must be the compiled frame projected to the selected columns "
+                   f"{want} (frame names of the selection, in selection order; hidden and helper columns dropped)")  # fmt: skip
+    except (AnalysisError, SymbolicBranch) as e:
+        chk.note(f"R5: PolarsImpl.export could not be interpreted ({str(e)[:140]}); judged by shape")
+    except PyRaise as p_:
+        pexp_decided = True
+        chk.ob("R5", pol, pexp, "PolarsImpl.export on the stub frame", False, f"PolarsImpl.export raises {p_.name}: {p_.msg}")
+    if not pexp_decided:
+        chk.ob("R5", pol, pexp, "PolarsImpl.export selects name_in_df[uid] for uid in select", "lf.select(*(name_in_df[uid] for uid in select))" in norm(pexp),
+               "PolarsImpl.export does not project the frame by the select list in order")  # fmt: skip
     chk.assumptions.append("equality of rows and values is a runtime fact about two engines and is not decided")
